@@ -8,6 +8,7 @@ cd "$(dirname "$0")/.."
 for d in seeded/$G; do
   n=$(basename $d); p=$(echo $n | cut -c1-3)
   [ -f $d/check_with ] && p=$(cat $d/check_with)
+  [ -f $d/neutralised ] && { echo "$n NEUTRALISED ($(cat $d/neutralised))"; continue; }
   WT=/tmp/seedchk_$$_$n
   git -C /repo worktree add -q --detach $WT HEAD || { echo "$n worktree-failed"; continue; }
   if git -C $WT apply $PWD/$d/patch.diff 2>/dev/null; then
